@@ -141,17 +141,7 @@ fn regex<'a, T: Queryable>(lhs: State<'a, T>, rhs: State<'a, T>, substr: bool) -
 
 fn prepare_regex(pattern: String, substring: bool) -> String {
     let pattern = if !substring {
-        let pattern = if pattern.starts_with('^') {
-            pattern
-        } else {
-            format!("^{}", pattern)
-        };
-        let pattern = if pattern.ends_with('$') {
-            pattern
-        } else {
-            format!("{}$", pattern)
-        };
-        pattern
+        format!("^(?:{})$", pattern)
     } else {
         pattern.to_string()
     };
